@@ -366,6 +366,103 @@ func c10Make(rng *rand.Rand, e c10Enz, n, k int, circular, inside bool) (c10Case
 	return c10Case{}, false
 }
 
+// c10MakeRepeated builds a part that carries the SAME site-flanked cassette
+// (forward site, skip, overhang, interior, overhang, skip, backward site)
+// copies times, separated by spacers of independent random background, plus
+// optionally one different cassette; digestion must release the cassette's
+// fragment once per copy, so the expected multiset holds identical fragments.
+func c10MakeRepeated(rng *rand.Rand, e c10Enz, copies int, circular bool, maxLen int) (c10Case, bool) {
+	l := len(e.site)
+	rc := c10RC(e.site)
+	for attempt := 0; attempt < 60; attempt++ {
+		interior := rng.Intn(40)
+		if rng.Intn(4) == 0 {
+			interior = rng.Intn(400)
+		}
+		clen := 2*l + 2*e.skip + 2*e.ovh + interior
+		type span struct{ start, length int }
+		var cass []span
+		pos := 0
+		if !circular || rng.Intn(2) == 0 {
+			pos = rng.Intn(30)
+		}
+		for i := 0; i < copies; i++ {
+			cass = append(cass, span{pos, clen})
+			pos += clen + rng.Intn(3)*rng.Intn(30)
+		}
+		if copies == 2 && rng.Intn(3) == 0 { // one different cassette (own random interior) after the copies: at most 6 sites
+			ol := 2*l + 2*e.skip + 2*e.ovh + rng.Intn(40)
+			pos += rng.Intn(20)
+			cass = append(cass, span{pos, ol})
+			pos += ol
+		}
+		n := pos + rng.Intn(30)
+		if n < 20 {
+			n = 20
+		}
+		if n > maxLen {
+			continue
+		}
+		var st []c10Site
+		for _, c := range cass {
+			st = append(st, c10Site{c.start, true}, c10Site{c.start + c.length - l, false})
+		}
+		if !c10Pre(n, circular, st, e, true) {
+			continue
+		}
+		for try := 0; try < 40; try++ {
+			b := c10Background(rng, n, e.site)
+			for _, s := range st {
+				w := e.site
+				if !s.fwd {
+					w = rc
+				}
+				copy(b[s.start:], w)
+			}
+			for i := 1; i < copies; i++ {
+				copy(b[cass[i].start:cass[i].start+clen], b[cass[0].start:cass[0].start+clen])
+			}
+			seq := string(b)
+			var wantF, wantR []int
+			for _, s := range st {
+				if s.fwd {
+					wantF = append(wantF, s.start)
+				} else {
+					wantR = append(wantR, s.start)
+				}
+			}
+			if c10IntsEqual(c10Occ(seq, circular, e.site), wantF) && c10IntsEqual(c10Occ(seq, circular, rc), wantR) {
+				return c10Case{e, seq, circular, st}, true
+			}
+		}
+	}
+	return c10Case{}, false
+}
+
+// c10HasDuplicate: does the sorted fragment list hold two identical fragments?
+func c10HasDuplicate(sorted []string) bool {
+	for i := 1; i < len(sorted); i++ {
+		if sorted[i] == sorted[i-1] {
+			return true
+		}
+	}
+	return false
+}
+
+// c10SameSet: are the two sorted lists equal once repetitions are dropped?
+func c10SameSet(a, b []string) bool {
+	dedup := func(xs []string) []string {
+		var out []string
+		for i, x := range xs {
+			if i == 0 || x != xs[i-1] {
+				out = append(out, x)
+			}
+		}
+		return out
+	}
+	return c10StrsEqual(dedup(a), dedup(b))
+}
+
 func c10IntsEqual(a, b []int) bool {
 	if len(a) != len(b) {
 		return false
@@ -658,12 +755,14 @@ func TestVerifC10(t *testing.T) {
 	nRotSmall, nRotBig := 2000, 200
 	nLin := 8000
 	nCase := 1500
+	nRep, nRepRot := 600, 150
 	if thorough {
 		nFrag, nRotSmall, nRotBig, nLin, nCase = 300000, 40000, 4000, 150000, 20000
+		nRep, nRepRot = 12000, 3000
 	}
 	var harness []string
 	{
-		v := newVerifRun("C10", c10ClauseFrag, fmt.Sprintf("sampled, %d draws: BsaI/BbsI/BtgZI through CutWithEnzymeByName, six published Type IIS geometries and random non-palindromic custom enzymes (site 4..8 bases, skip 0..14, overhang 1..6) through CutWithEnzyme; parts of 20..3000 bases, circular (stored at a random origin, sites may straddle it) and linear (every site's cut and overhang inside the part), 0..6 planted sites in either orientation at random spacing (gaps from 0 up) over a background verified to contain no other occurrence; only layouts inside the precondition (occurrences do not overlap, cuts in site order, paired cuts >= 2 overhang lengths apart); directional digestion; multiset equality with an independent modular-index digester; non-trivial = at least one fragment expected", nFrag))
+		v := newVerifRun("C10", c10ClauseFrag, fmt.Sprintf("sampled, %d draws: BsaI/BbsI/BtgZI through CutWithEnzymeByName, six published Type IIS geometries and random non-palindromic custom enzymes (site 4..8 bases, skip 0..14, overhang 1..6) through CutWithEnzyme; parts of 20..3000 bases, circular (stored at a random origin, sites may straddle it) and linear (every site's cut and overhang inside the part), 0..6 planted sites in either orientation at random spacing (gaps from 0 up) over a background verified to contain no other occurrence; only layouts inside the precondition (occurrences do not overlap, cuts in site order, paired cuts >= 2 overhang lengths apart); directional digestion; multiset equality (sorted lists with repetitions, never sets) with an independent modular-index digester; PLUS %d 'repeated-cassette' parts (3 of 4 circular, <= 3000 bases, same enzymes): the SAME cassette (forward site, skip, overhang, interior of 0..399 bases, overhang, skip, backward site) planted 2 or 3 times with spacers of 0..58 unrelated bases, a third of the two-copy parts with one further different cassette (4 or 6 sites in all), so that two or three IDENTICAL fragments are expected; circular ones digested at every rotation of the stored sequence (<= 120 bases) or at rotation 0 and 6 random rotations, each compared with the oracle on the rotated ring; a result that differs from the expectation only in how often a fragment occurs is classed repeated-cassette; non-trivial = at least one fragment expected", nFrag, nRep))
 		v.Sampled()
 		var col c10Collector
 		for i := 0; i < nFrag; i++ {
@@ -691,13 +790,61 @@ func TestVerifC10(t *testing.T) {
 				col.add(c10ClauseFrag, shape, c10Input(e, c.seq, circular), "sites ["+c.layout()+"]: "+c10Diff(got, want), len(c.seq))
 			}
 		}
+		// parts carrying the same cassette two or three times: the expected
+		// multiset holds identical fragments (own random stream, so that the
+		// draws above and below stay what they were)
+		rngRep := rand.New(rand.NewSource(verifSeed() ^ 0x10c10))
+		for i := 0; i < nRep; i++ {
+			e := c10PickEnzyme(rngRep, i)
+			circular := i%4 != 3
+			c, ok := c10MakeRepeated(rngRep, e, 2+rngRep.Intn(2), circular, 3000)
+			if !ok {
+				continue
+			}
+			n := len(c.seq)
+			rots := []int{0}
+			if circular {
+				if n <= 120 {
+					rots = rots[:0]
+					for r := 0; r < n; r++ {
+						rots = append(rots, r)
+					}
+				} else {
+					for j := 0; j < 6; j++ {
+						rots = append(rots, rngRep.Intn(n))
+					}
+				}
+			}
+			for _, r := range rots {
+				seq := c10Rotate(c.seq, r)
+				want := c10Oracle(seq, circular, e)
+				if pairs := c10PlantedPairs(c); pairs != len(want) || !c10HasDuplicate(want) {
+					harness = append(harness, fmt.Sprintf("repeated cassette: oracle gives %d fragments (identical ones: %v), planted layout has %d forward->backward pairs: %s rot=%d", len(want), c10HasDuplicate(want), pairs, c.key(), r))
+					break
+				}
+				v.Case(fmt.Sprintf("repeated-cassette #%d %s rot=%d", i, c.key(), r), true)
+				got, perr := c10Real(seq, circular, e)
+				shape := c10Shape(seq, circular, e)
+				if perr != "" {
+					col.add(c10ClauseFrag, shape+"-panic", c10Input(e, seq, circular), perr, n)
+					continue
+				}
+				if !c10StrsEqual(got, want) {
+					if c10SameSet(got, want) {
+						// the same fragments, but not as many of each: the repetition is what matters
+						shape = "repeated-cassette"
+					}
+					col.add(c10ClauseFrag, shape, c10Input(e, seq, circular), fmt.Sprintf("sites [%s] rotated by %d: %s", c.layout(), r, c10Diff(got, want)), n)
+				}
+			}
+		}
 		col.flush(v)
 		v.Done()
 	}
 
 	// ---- rotation independence ----
 	{
-		v := newVerifRun("C10", c10ClauseRot, fmt.Sprintf("circular parts inside the same precondition, 1..6 planted sites, same enzymes; %d sampled plasmids of 20..300 bases each digested at EVERY rotation of the stored sequence, and %d sampled plasmids of 301..3000 bases at every rotation whose origin falls within 2 bases of a site, its skip or its overhang plus 24 random rotations; the fragment multisets of all rotations of one plasmid must be identical (a rotation fails when it differs from the most common result); non-trivial = the plasmid yields at least one fragment", nRotSmall, nRotBig))
+		v := newVerifRun("C10", c10ClauseRot, fmt.Sprintf("circular parts inside the same precondition, 1..6 planted sites, same enzymes; %d sampled plasmids of 20..300 bases each digested at EVERY rotation of the stored sequence, and %d sampled plasmids of 301..3000 bases at every rotation whose origin falls within 2 bases of a site, its skip or its overhang plus 24 random rotations; and %d sampled plasmids of up to 300 bases carrying the same cassette 2 or 3 times (4 or 6 sites, identical fragments in the multiset) at every rotation; the fragment multisets (sorted lists with repetitions) of all rotations of one plasmid must be identical (a rotation fails when it differs from the most common result); non-trivial = the plasmid yields at least one fragment", nRotSmall, nRotBig, nRepRot))
 		v.Sampled()
 		var col c10Collector
 		run := func(c c10Case, rots []int, idx int) {
@@ -794,6 +941,20 @@ func TestVerifC10(t *testing.T) {
 			}
 			sort.Ints(rots)
 			run(c, rots, nRotSmall+i)
+		}
+		// plasmids with the same cassette two or three times (identical fragments)
+		rngRep := rand.New(rand.NewSource(verifSeed() ^ 0x20c10))
+		for i := 0; i < nRepRot; i++ {
+			e := c10PickEnzyme(rngRep, i)
+			c, ok := c10MakeRepeated(rngRep, e, 2+rngRep.Intn(2), true, 300)
+			if !ok {
+				continue
+			}
+			rots := make([]int, len(c.seq))
+			for r := range rots {
+				rots[r] = r
+			}
+			run(c, rots, nRotSmall+nRotBig+i)
 		}
 		col.flush(v)
 		v.Done()
